@@ -573,6 +573,15 @@ func normAtom(t *Term, nilness func(*Term) int) Atom {
 			return Atom{Key: "TypeIs(" + in.Args[0].Key() + ", " + in.Name + ")", Pol: pol}
 		}
 	}
+	if t.Op == "isclosure" {
+		// which literal a function variable holds: decided when the store knows
+		if v := t.Args[0]; v.Op == "closure" {
+			return mkc(v.Name == t.Name)
+		} else if v.isConst() && v.Name == "nil" {
+			return mkc(false)
+		}
+		return Atom{Key: "Truth(isclosure:" + t.Name + "(" + t.Args[0].Key() + "))", Pol: pol}
+	}
 	if t.Op == "typeis" {
 		if dt, ok := dynType(t.Args[0]); ok && len(t.Fields) == 0 {
 			return mkc(dt == t.Name)
